@@ -3176,7 +3176,7 @@ pub fn matrix_column_elements(&mut self, column_elements: &[&MatrixColumn]) -> S
     match node {
       VecOp::MatMul => "**".to_string(),
       VecOp::Solve => "\\".to_string(),
-      VecOp::Cross => "×".to_string(),
+      VecOp::Cross => "⨯".to_string(),
       VecOp::Dot => "·".to_string(),
     }
   }
@@ -3185,7 +3185,7 @@ pub fn matrix_column_elements(&mut self, column_elements: &[&MatrixColumn]) -> S
     match node {
       ComparisonOp::Equal => "⩵".to_string(),
       ComparisonOp::StrictEqual => "=:=".to_string(),
-      ComparisonOp::StrictNotEqual => "=/=".to_string(),
+      ComparisonOp::StrictNotEqual => "=!=".to_string(),
       ComparisonOp::NotEqual => "≠".to_string(),
       ComparisonOp::GreaterThan => ">".to_string(),
       ComparisonOp::GreaterThanEqual => "≥".to_string(),
